@@ -7,7 +7,7 @@ BARE = re.compile(r'^[A-Za-z0-9_]+$')
 NAMES = ['users', 'posts', 'orders', 'order_items', 'T1', 'x', 'select', 'table', 'Ref', 'note', 'enum', 'indexes',
          'my table', 'Таблица', 'we ird', 'a-b', 'semi;colon', 'curly{brace}', "quo'te", 'hash#tag', '1st']
 COLS = ['id', 'name', 'user_id', 'created_at', 'status', 'total', 'ref', 'pk', 'unique', 'null', 'as',
-        'my col', 'cöl', 'c,d', '(e)', 'x y z']
+        'my col', 'cöl', 'c,d', '(e)', 'x y z', 'notes', 'note_id', 'Note', 'indexes_count', 'enum_value', 'table_id', 'refs', 'default']
 SCHEMAS = ['public', 'auth', 'my schema', 'S2']
 TYPES = ['int', 'integer', 'varchar', 'varchar(255)', 'numeric(10,2)', 'numeric(10, 2)', 'int[]', 'text', 'timestamp',
          'decimal(1,2)', '"my type"', 'character varying']   # the last two only in quoted form
@@ -148,7 +148,7 @@ def gen_schema(r, size=None, features=1.0):
                 ty = ('plain', r.choice(TYPES[:10]))
             dk = r.choice(['none'] * 5 + ['int', 'int0', 'float', 'true', 'false', 'null', 'str', 'str_empty', 'expr']) if f > 0 else 'none'
             d = {'none': None, 'int': ('int', r.choice([1, 42, 1000000, 7])), 'int0': ('int', 0),
-                 'float': ('float', r.choice(['1.5', '0.0', '10.25', '3.0', '0.5', '123.456'])),
+                 'float': ('float', r.choice(['1.5', '0.0', '10.25', '3.0', '0.5', '123.456', '52.5200066', '0.0012345678', '1234567.125', '0.1000001'])),
                  'true': ('bool', True), 'false': ('bool', False), 'null': ('null', None),
                  'str': ('str', r.choice(NOTES + ['true', 'NULL', '0'])), 'str_empty': ('str', ''),
                  'expr': ('expr', r.choice(['now()', 'id * 2', "'a' || b", 'a + (b * c)', '']))}[dk]
